@@ -25,9 +25,10 @@ type Merger struct {
 	readers []*reader
 
 	// err is the first error other than io.EOF returned by
-	// a source Reader when merging by sort order. It is
+	// a source Reader. When merging by sort order it is
 	// returned by Read after the remaining sources are
-	// exhausted.
+	// exhausted, when concatenating it is returned at once
+	// and by every later Read.
 	err error
 }
 
@@ -154,6 +155,13 @@ func (m *Merger) cat() (rec *sam.Record, err error) {
 		err = nil
 	}
 	if err != nil {
+		// The merged stream has failed: keep the error and
+		// do not read from any source again. An error from
+		// decoding a record does not stop a Reader, so the
+		// next Read would otherwise return the record that
+		// follows and the stream would end with io.EOF.
+		m.err = err
+		m.readers = nil
 		return nil, err
 	}
 	if rec == nil {
